@@ -154,12 +154,6 @@ structure Stitchable (dfs : List TS) (ub : List Int) : Prop where
 example : Stitchable [[(0, some 1), (5, some 2)], [], [(1, some 7), (9, none)]] [4, 6, 10] :=
   ⟨rfl, by decide, by decide, rfl⟩
 
-theorem assemble_many (P : List Frame) (h : 2 ≤ P.length) :
-    assemble P = some ⟨P.foldl (fun m f => max m f.width) 0,
-      P.flatMap fun f => f.rows.map fun r => (r.1, padRow (P.foldl (fun m f => max m f.width) 0) r.2)⟩ := by
-  match P, h with
-  | _ :: _ :: _, _ => rfl
-
 /-- the stitched frame is the concatenation of the pieces `pieces dfs ub n l u`: series `i` (with `n > 1`: the
     series `i .. i+n-1` side by side) cut to `(ub[i-1], ub[i]]` (the brackets as given), missing columns NaN -/
 theorem stitch_eq (dfs : List TS) (ub : List Int) (h : Stitchable dfs ub) (oc : Option (List Char)) (n : Nat) (l u : Bool)
@@ -310,24 +304,6 @@ theorem stitch_decreasing (dfs : List TS) (ub : List Int) (oc : Option (List Cha
 
 /-! ### df_unslice -/
 
-theorem pieces_eq_range (dfs : List TS) (ub : List Int) (h : Stitchable dfs ub) (n : Nat) (l u : Bool) :
-    pieces dfs ub n l u = (List.range ub.length).map fun k =>
-      if hk : k < (framesOf dfs n).length then
-        (⟨(framesOf dfs n)[k].width,
-          (framesOf dfs n)[k].rows.filter fun r => inWindow l u (loBound ub k) (.date (ub.getD k 0)) r.1⟩ : Frame)
-      else default := by
-  have hne : ub ≠ [] := by intro h0; have := h.two; simp [h0] at this
-  have hpl := pieces_length dfs ub n l u h.len hne
-  have hfl := framesOf_length dfs n
-  have hlen := h.len
-  apply List.ext_getElem
-  · simp [hpl]
-  · intro k h1 h2
-    have hk : k < ub.length := by omega
-    have hkf : k < (framesOf dfs n).length := by omega
-    rw [pieces_getElem dfs ub n l u h.len k h1 hk hkf]
-    simp [hkf, List.getD_eq_getElem?_getD, hk]
-
 /-- **unslice_restitch (partial)**: the first half of the inverse - cutting the stitched frame again at the bounds
     with `'(]'`, as `df_unslice` does, returns exactly the piece each interval was assembled from (rows, values,
     NaN padding).  NOT proved: that handing column `j` of piece `i` to bound `i+j`, dropping NaN rows and stitching
@@ -353,7 +329,7 @@ theorem unslice_slices_partial (dfs : List TS) (ub : List Int) (h : Stitchable d
   congr 1
   have hi1 : i < (pieces dfs ub n false true).length := by omega
   rw [List.filter_flatMap]
-  conv => lhs; rw [pieces_eq_range dfs ub h n false true]
+  conv => lhs; rw [pieces_eq_range dfs ub h.len h.two n false true]
   rw [List.flatMap_map]
   rw [Bitemp.flatMap_single _ i _ List.nodup_range]
   · have hir : i ∈ List.range ub.length := List.mem_range.mpr hi
@@ -402,6 +378,31 @@ theorem unslice_slices_partial (dfs : List TS) (ub : List Int) (h : Stitchable d
       rw [List.getElem?_eq_getElem (by omega)] at b
       have b' := (lbOk_iff false (.date (ub[k - 1]'(by omega))) r'.1).mp (by simpa using b)
       simp at b'; omega
+
+/-! evaluation tests of the full round trip on the model (`List.mergeSort` does not reduce in the kernel) -/
+
+def demoSeries : List TS := [[(0, some 1), (2, some 2), (5, some 3)], [], [(1, some 7), (2, some 8), (4, some 9), (9, some 6)]]
+def demoBounds : List Int := [2, 5, 8]
+def okEq {α} [BEq α] (r : Res α) (x : α) : Bool := match r with | .ok y => y == x | .error _ => false
+
+#guard okEq (stitch demoSeries Option.none (some demoBounds) (some ['(', ']']) 3)
+  (some ⟨3, [(0, [some 1, none, none]), (1, [none, none, some 7]), (2, [some 2, none, some 8]), (4, [none, some 9, none])]⟩)
+#guard okEq (do
+    let f ← stitch demoSeries Option.none (some demoBounds) (some ['(', ']']) 3
+    match f with
+    | some f => do
+        let u ← unslice f demoBounds
+        let g ← stitch (u.map (·.2)) Option.none (some demoBounds) (some ['(', ']']) 3
+        pure (g == some f && u.map (·.1) == demoBounds)
+    | Option.none => pure false : Res Bool) true
+#guard okEq (do
+    let f ← stitch demoSeries Option.none (some demoBounds) (some ['(', ']']) 1
+    match f with
+    | some f => do
+        let u ← unslice f demoBounds
+        let g ← stitch (u.map (·.2)) Option.none (some demoBounds) (some ['(', ']']) 1
+        pure (g == some f)
+    | Option.none => pure false : Res Bool) true
 
 theorem tod_range (t : Int) : 0 ≤ tod t ∧ tod t < DAY := ⟨tod_nonneg t, tod_lt t⟩
 
